@@ -531,6 +531,8 @@ def inject(rng, script, info, cls):
             sc = {"uval": {"v": "0", "u": {"sys": sysj(eff(s2, d2)), "dim": list(d2)}}}
         else:
             v = float(rng.randint(1, 9))
+            if rng.random() < 0.3:
+                v = rng.choice([0.0, 0.0, -0.0])        # exactly zero is still a quantity of the wrong dimension
             form = rng.choice(["text", "uval"])
             if form == "uval":
                 from strengths.units import UnitValue, Units, UnitsSystem, UnitsDimensions
@@ -993,6 +995,39 @@ def run_index_map(shape, im, env):
         return "error:" + type(ex).__name__
 
 
+ENTRY_POINTS = ["coarsegrain_grid", "coarsegrain_system", "simulate_script(cgmap)", "simulate(cgmap)"]
+
+
+def run_index_map_entry(shape, im, env, entry):
+    """the same map handed to one of the other entry points that take a coarse-graining map"""
+    import common
+    from strengths.rdspace import RDGridSpace
+    from strengths.rdnetwork import RDNetwork, Species, Reaction
+    from strengths.rdsystem import RDSystem
+    from strengths.rdscript import RDScript
+    from strengths import coarsegrain, simulate as sim
+    w, h, d = shape
+    nenv = max([e for e in env if isinstance(e, int)] + [0]) + 1
+    sp = RDGridSpace(w=w, h=h, d=d, cell_env=list(env))
+    try:
+        if entry == "coarsegrain_grid":
+            coarsegrain.coarsegrain_grid(sp, list(im))
+            return "ok"
+        net = RDNetwork([Species("A", D=1.0, density=1.0)], [Reaction("A -> ", kf=0.1)], environments=["e%d" % i for i in range(nenv)])
+        rds = RDSystem(net, sp)
+        if entry == "coarsegrain_system":
+            coarsegrain.coarsegrain_system(rds, list(im))
+            return "ok"
+        eng = common.load_engine("euler")
+        if entry == "simulate_script(cgmap)":
+            sim.simulate_script(RDScript(rds, [0.0, 0.01], time_step=0.01), eng, cgmap=list(im))
+        else:
+            sim.simulate(rds, [0.0, 0.01], engine=eng, time_step=0.01, cgmap=list(im))
+        return "ok"
+    except Exception as ex:  # noqa
+        return "error:" + type(ex).__name__
+
+
 # ---------------------------------------------------------------------------------------------
 def run(ctx):
     rng = ctx.rng
@@ -1079,7 +1114,7 @@ def run(ctx):
 
     # ---------------------------------------------------------------- 4. coarse-graining maps
     ops, meta = [], []
-    for i in range(ctx.n(600, 10000)):
+    for i in range(ctx.n(400, 10000)):
         shape, im, env, fault = gen_index_map(rng)
         meta.append((shape, im, env, fault))
         ops.append({"op": "validate", "kind": "index_map", "im": [v if type(v) is int else None for v in im], "env": env})
@@ -1092,6 +1127,18 @@ def run(ctx):
         ctx.count("indexmap_" + ("invalid" if inv else "valid"))
         if inv and got == "ok":
             report(ctx, "index-map:" + inv.replace(" ", "-"), "coarse-graining map %r (%s) was accepted" % (im, inv), case, impl=got, expected="exception")
+        # the same map through every other entry point that takes one (valid maps: the two cheap ones only)
+        if len(env) == shape[0] * shape[1] * shape[2]:
+            for entry in (ENTRY_POINTS if inv else ENTRY_POINTS[:2]):
+                if inv and entry.startswith("simulate") and rng.random() < (0.7 if ctx.tier == "quick" else 0.5):
+                    continue
+                g2 = run_index_map_entry(shape, im, env, entry)
+                ctx.count("indexmap_%s_%s" % (entry, "invalid" if inv else "valid"))
+                if inv and g2 == "ok":
+                    report(ctx, "index-map:%s@%s" % (inv.replace(" ", "-"), entry),
+                           "coarse-graining map %r (%s) was accepted by %s" % (im, inv, entry), dict(case, entry=entry), impl=g2, expected="exception")
+                if not inv and g2 != "ok":
+                    ctx.count("indexmap_valid_rejected@" + entry)
         if not inv and got != "ok":
             ctx.count("indexmap_valid_rejected")
         if r is not None and (("error" in r) != (got != "ok")):
@@ -1357,6 +1404,16 @@ def refused_write_table():
     add("species.chstt not a flag", lambda s: setattr(sp1(s), "chstt", "yes"), lambda s: setattr(sp1(s), "chstt", 1), lambda s: sp1(s).chstt is True)
     r0 = lambda s: s.system.network.reactions[0]
     add("reaction.kf of another order", lambda s: setattr(r0(s), "kf", "1 µm3/s"), lambda s: setattr(r0(s), "kf", 6), lambda s: float(r0(s).kf.value) == 6.0)
+    add("reaction.kr zero of another dimension", lambda s: setattr(r0(s), "kr", UnitValue(0, "s-2")), lambda s: setattr(r0(s), "kr", 0),
+        lambda s: float(r0(s).kr.value) == 0.0)
+    add("reaction.set_k with a zero kr of another dimension", lambda s: r0(s).set_k(1, UnitValue(-0.0, "µm")), lambda s: r0(s).set_k(1, 0), lambda s: float(r0(s).kr.value) == 0.0)
+    add("reaction.kf zero text of another dimension", lambda s: setattr(r0(s), "kf", "0 µm"), lambda s: setattr(r0(s), "kf", "0 s-1"), lambda s: float(r0(s).kf.value) == 0.0)
+    add("species.D zero of another dimension", lambda s: setattr(sp1(s), "D", UnitValue(0, "s")), lambda s: setattr(sp1(s), "D", UnitValue(0, "µm2/s")), lambda s: float(sp1(s).D.value) == 0.0)
+    add("space.cell_vol zero of another dimension", lambda s: setattr(s.system.space, "cell_vol", UnitValue(0, "µm2")),
+        lambda s: setattr(s.system.space, "cell_vol", "1 µm3"), lambda s: float(s.system.space.cell_vol.value) == 1.0)
+    add("script.time_step zero of another dimension", lambda s: setattr(s, "time_step", "0 µm"), lambda s: setattr(s, "time_step", "1 s"), lambda s: float(s.time_step.value) == 1.0)
+    add("state.value zero item of another dimension", lambda s: setattr(st(s), "value", [5.0, UnitValue(0, "s"), 7.0, 8.0, 9.0, 1.0, 2.0, 3.0]),
+        lambda s: setattr(st(s), "value", [1.0] * 8), lambda s: [float(v) for v in st(s).value] == [1.0] * 8)
     add("reaction.kr dict with an array", lambda s: setattr(r0(s), "kr", {"a": 1.0, "b": [1, 2]}), lambda s: setattr(r0(s), "kr", {"b": 2}), lambda s: float(r0(s).kr["b"].value) == 2.0)
     netw = lambda s: s.system.network
     add("network.environments with the reserved name", lambda s: setattr(netw(s), "environments", ["a", "default"]),
@@ -1636,6 +1693,10 @@ def replay(ctx, rec):
                                      case.get("reuse"))
         return (not c.v), {"case": case, "impl": {k: got[k] for k in ("result", "value", "exc", "state_changed", "chem_changed") if k in got},
                            "valid_input": valid, "failures": c.v}
+    if kind == "index-map" and case.get("entry"):
+        got = run_index_map_entry(tuple(case["shape"]), case["im"], case["env"], case["entry"])
+        inv = spec_index_map_invalid(case["im"], case["env"])
+        return not (inv and got == "ok"), {"case": case, "impl": got, "invalid_because": inv}
     if kind == "index-map":
         got = run_index_map(tuple(case["shape"]), case["im"], case["env"])
         inv = spec_index_map_invalid(case["im"], case["env"])
